@@ -20,4 +20,6 @@ for d in /verif/seeded/*/; do
   sig=$(grep -m1 "signature" /tmp/seeded_$n.log | sed 's/^ *signature //' | cut -d: -f1)
   printf "%s\t%s\t%s\tyes\t%s\t%s\n" $n $p $TIER $rc "$sig" >> $OUT
 done
+# evidence written while a seeded change was applied is not evidence about the tree
+git -C /verif checkout -- evidence 2>/dev/null
 cat $OUT
